@@ -1,6 +1,7 @@
 (* C20 — Wire encodings round-trip and are canonical.
-   Property theorems only; each is closed by [exact] of a lemma proved in Proofs/CodecP.v. *)
+   Property theorems only; each is closed by [exact] of a lemma proved in Proofs/CodecP.v or Proofs/JsonTextP.v. *)
 Require Import Verif.Model.Base Verif.Model.Codec Verif.Proofs.CodecP.
+Require Import Verif.Model.JsonText Verif.Proofs.JsonTextP.
 
 (* ---------------- leaves: text level ---------------- *)
 (* hex: every byte string, any length (empty included) *)
@@ -97,6 +98,90 @@ Theorem C20_norm_keeps_consensus_leaves : forall v,
   norm TBool v = v /\ (forall z, norm (TOpaque z) v = v).
 Proof. exact norm_leaves. Qed.
 Print Assumptions C20_norm_keeps_consensus_leaves.
+
+(* ---------------- JSON text layer: the bytes themselves ---------------- *)
+(* print = the bytes json.Marshal emits for a tree; parse = json.Unmarshal's scanner and unquoting, with fuel.
+   wf_json: strings and member names ASCII, number tokens complete, at most 10000 containers nested. *)
+(* every tree of the modelled subset is recovered exactly from its bytes; continuation form: the value is read off
+   the front of any input whose remainder cannot prolong a number token, at any depth, with any sufficient fuel *)
+Theorem C20_text_parse_print_rest : forall j d fuel rest,
+  wf_at d j = true -> num_stop rest = true -> (length (print j ++ rest) <= fuel)%nat ->
+  parse_value fuel d (print j ++ rest) = Some (j, rest).
+Proof. exact parse_value_print. Qed.
+Print Assumptions C20_text_parse_print_rest.
+
+Theorem C20_text_parse_print : forall j, wf_json j = true -> parse (print j) = Some j.
+Proof. exact parse_print. Qed.
+Print Assumptions C20_text_parse_print.
+
+(* the parser only yields trees of the subset ... *)
+Theorem C20_text_parse_wf : forall s j, parse s = Some j -> wf_json j = true.
+Proof. exact parse_wf. Qed.
+Print Assumptions C20_text_parse_wf.
+
+(* ... hence decoding then encoding any accepted byte string (white space, \/ \u0041 escapes, upper-case hex,
+   duplicate members) is idempotent at the text level *)
+Theorem C20_text_print_parse_idem : forall s j, parse s = Some j -> parse (print j) = Some j.
+Proof. exact print_parse_idem. Qed.
+Print Assumptions C20_text_print_parse_idem.
+
+(* the fuel parse supplies (the length of the input) always suffices: any two fuels not below the length agree,
+   so no input is rejected for lack of fuel *)
+Theorem C20_text_fuel_suffices : forall f1 f2 d s,
+  (length s <= f1)%nat -> (length s <= f2)%nat -> parse_value f1 d s = parse_value f2 d s.
+Proof. exact parse_value_fuel. Qed.
+Print Assumptions C20_text_fuel_suffices.
+
+(* canonical bytes: two trees with the same bytes are the same tree *)
+Theorem C20_text_print_injective : forall j j',
+  wf_json j = true -> wf_json j' = true -> print j = print j' -> j = j'.
+Proof. exact print_inj. Qed.
+Print Assumptions C20_text_print_injective.
+
+(* white space around the top-level value is ignored *)
+Theorem C20_text_ws_ignored : forall j pre post,
+  wf_json j = true -> forallb is_ws pre = true -> forallb is_ws post = true ->
+  parse (pre ++ print j ++ post) = Some j.
+Proof. exact parse_ws_around. Qed.
+Print Assumptions C20_text_ws_ignored.
+
+(* ---------------- wire types at byte level: text layer composed with the structure level ---------------- *)
+(* encode_text t v = print (enc t v);  decode_text t s = parse s then dec t (zero t) *)
+(* what the encoder produces from a well-typed value whose free texts (strings, string map keys, member names,
+   opaque leaf tokens) are ASCII lies in the modelled subset: decimal tokens of 0 .. max and of negative numbers
+   are complete number tokens without leading zeros, hex strings are ASCII *)
+Theorem C20_wire_enc_in_subset : forall t v,
+  wt t v = true -> txt_ok t v = true -> (ty_depth t <= max_depth)%N -> wf_json (enc t v) = true.
+Proof. exact enc_wf_json. Qed.
+Print Assumptions C20_wire_enc_in_subset.
+
+(* byte-level version of C20_struct_roundtrip *)
+Theorem C20_wire_roundtrip : forall t v,
+  wf_ty t = true -> wt t v = true -> wf_json (enc t v) = true ->
+  decode_text t (encode_text t v) = Some (norm t v).
+Proof. exact text_roundtrip. Qed.
+Print Assumptions C20_wire_roundtrip.
+
+Theorem C20_wire_roundtrip_val : forall t v,
+  wf_ty t = true -> wt t v = true -> txt_ok t v = true -> (ty_depth t <= max_depth)%N ->
+  decode_text t (encode_text t v) = Some (norm t v).
+Proof. exact text_roundtrip_val. Qed.
+Print Assumptions C20_wire_roundtrip_val.
+
+(* byte-level version of C20_struct_reencode: the decoded value re-encodes to the same bytes *)
+Theorem C20_wire_reencode : forall t v,
+  wf_ty t = true -> wt t v = true -> wf_json (enc t v) = true ->
+  exists v', decode_text t (encode_text t v) = Some v' /\ encode_text t v' = encode_text t v /\
+             decode_text t (encode_text t v') = Some v'.
+Proof. exact text_reencode. Qed.
+Print Assumptions C20_wire_reencode.
+
+(* accepted foreign bytes: the encoding of what they decode to is a fixed point of decode-then-encode *)
+Theorem C20_wire_idempotent : forall t s v,
+  wf_ty t = true -> decode_text t s = Some v -> wt t v = true -> wf_json (enc t v) = true ->
+  exists v', decode_text t (encode_text t v) = Some v' /\ encode_text t v' = encode_text t v.
+Proof. exact text_idempotent. Qed.
+Print Assumptions C20_wire_idempotent.
 
 (* ---------------- canonical order ---------------- *)
 (* commit: merkleroot.Outcome.Sort — any two arrangements of the same items (one per chain) sort identically *)
